@@ -113,6 +113,8 @@ def reduce_op(name, x, axis=None, skipna=None):
         sk = True
     if sk and name in ("sum", "mean", "std", "max", "min", "argmax", "argmin"):
         name = "nan" + name
+    if skipna is False or skipna == T.FALSE_T:
+        name = "strict" + name      # an explicit skipna=False propagates NaN: a different reduction from the default
     return op(name, to_term(x), axis_term(axis))
 
 
